@@ -168,7 +168,14 @@ where
             {
                 self.publish_value(
                     LocationAndType::Basic(*address),
-                    MemoryValue::Basic(Some(AccountInfo { code: None, ..info.clone() })),
+                    // Code travels through the `Code` location, so it is stripped here - except
+                    // the empty bytecode of a code-less account: later transactions must see the
+                    // same `code` field a read of revm's cache would return, or the block's merged
+                    // transition (and with it `BundleState::contracts`) differs from revm's.
+                    MemoryValue::Basic(Some(AccountInfo {
+                        code: if has_code { None } else { info.code.clone() },
+                        ..info.clone()
+                    })),
                     estimate,
                     &mut write_set,
                 );
